@@ -179,10 +179,11 @@ func rcBinary() (string, string) {
 		repo := os.Getenv("VERIF_REPO")
 		dir := filepath.Join(root, ".build", "race", fmt.Sprintf("%x", sha1.Sum([]byte(repo)))[:12])
 		os.MkdirAll(dir, 0o755)
-		out := filepath.Join(dir, "racebin")
-		// always ask the go tool: its content-addressed build cache makes this a ~2 s no-op on an unchanged tree and
-		// guarantees the binary is never stale with respect to any .go file of $VERIF_REPO
-		os.Remove(out)
+		// a binary of this process's own: always ask the go tool (its content-addressed build cache makes this a ~2 s no-op on
+		// an unchanged tree and guarantees the binary is never stale with respect to any .go file of $VERIF_REPO); another check
+		// of the same tree may be running its binary right now, so nothing shared is removed or replaced
+		cleanStaleBins(dir, "racebin.")
+		out := filepath.Join(dir, fmt.Sprintf("racebin.%d", os.Getpid()))
 		cmd := exec.Command("go", "build", "-race", "-tags", "verif", "-o", out, "./race")
 		cmd.Dir = filepath.Join(root, "harness")
 		env := os.Environ()
